@@ -454,6 +454,47 @@ def wellformed(rng, depth):
     return nodes(depth, False) + node(depth, False)
 
 
+HUGE = "7" * 4400   # more digits than CPython converts between int and str without complaint
+
+
+def huge_number_family(ck: Check) -> None:
+    """Very long digit runs in every syntactic position that takes a number: the lexer accepts them, so lax and warn mode must
+    parse and render them without raising (oracle only; the model's expressions are classes, not texts)."""
+    import warnings
+
+    from liquid import Environment, Mode
+
+    from ..core import classify_exc, run_async
+
+    sources = [
+        "{{ items[" + HUGE + "] }}", "{{ items[-" + HUGE + "] }}", "{{ " + HUGE + " }}", "{{ " + HUGE + ".5 }}", "{{ x | plus: " + HUGE + " }}",
+        "{% for i in (1.." + HUGE + ") limit: 2 %}{{ i }}{% endfor %}", "{% for i in items limit: " + HUGE + " %}{{ i }}{% endfor %}",
+        "{% for i in items offset: " + HUGE + " %}{{ i }}{% endfor %}", "{% if x == " + HUGE + " %}a{% endif %}", "{% assign y = " + HUGE + " %}{{ y }}",
+        "{% case x %}{% when " + HUGE + " %}a{% endcase %}", "{% cycle " + HUGE + ", 2 %}", "{% tablerow i in items cols: " + HUGE + " %}{{ i }}{% endtablerow %}",
+        "{{ items." + HUGE + " }}", "{{ 'a' | slice: " + HUGE + " }}", "{{ x | default: items[" + HUGE + "] }}",
+    ]
+    data = {"items": [1, 2, 3], "x": 1}
+    for src in sources:
+        for mode in ("LAX", "WARN"):
+            for use_async in (False, True):
+                env = Environment(tolerance=getattr(Mode, mode))
+                with warnings.catch_warnings():
+                    warnings.simplefilter("ignore")
+                    try:
+                        t = env.from_string(src)
+                        run_async(t.render_async(**data)) if use_async else t.render(**data)
+                        r = None
+                    except Exception as e:  # noqa: BLE001
+                        r = classify_exc(e)
+                ck.note_case(("huge", src[:40], mode, use_async))
+                ck.count("huge-number")
+                if r is not None:
+                    shown = src.replace(HUGE, "<4400 digits>")
+                    ck.violation("impl-violation", f"{mode.lower()}-raises:huge-number:{shown[:60]}",
+                                 f"{mode} mode raises {r} on {shown!r} ({'async' if use_async else 'sync'})",
+                                 {"type": "huge-number", "source_with_placeholder": shown, "mode": mode, "async": use_async, "raised": r})
+
+
 def run(ck: Check) -> None:
     ck.rule = (
         f"Sources are concatenations of pieces (one tag, output statement or run of text each; {len(PIECES)} pieces: every standard tag and the "
@@ -482,6 +523,7 @@ def run(ck: Check) -> None:
         "expression text is never one of the words that stop the junk skipping after a case tag",
     ]
     ck.proof()
+    huge_number_family(ck)
 
     import time
 
@@ -552,6 +594,27 @@ def run(ck: Check) -> None:
 
 
 def replay(data) -> int:
+    if data["case"].get("type") == "huge-number":
+        import warnings
+
+        from liquid import Environment, Mode
+
+        from ..core import classify_exc, run_async
+
+        c = data["case"]
+        src = c["source_with_placeholder"].replace("<4400 digits>", HUGE)
+        env = Environment(tolerance=getattr(Mode, c["mode"]))
+        with warnings.catch_warnings():
+            warnings.simplefilter("ignore")
+            try:
+                t = env.from_string(src)
+                run_async(t.render_async(items=[1, 2, 3], x=1)) if c["async"] else t.render(items=[1, 2, 3], x=1)
+                r = None
+            except Exception as e:  # noqa: BLE001
+                r = classify_exc(e)
+        print(c["mode"], "mode on", c["source_with_placeholder"], "->", r)
+        print(("VIOLATION reproduced" if r is not None else "not reproduced") + f" property={data['property']}")
+        return 1 if r is not None else 0
     case = data["case"]
     if case.get("type") != "modes" or "pieces" not in case:
         print("replay names a proof/correspondence obligation:", case)
